@@ -577,6 +577,7 @@ def c13(rec):
     out = []
     c = O.cause(rec)
     reg, unreg = {}, {}
+    unlinked = set()
     for (cmd, name, rtype, proc) in rec.tracker_log:
         if rtype != "semlock":
             continue
@@ -585,9 +586,16 @@ def c13(rec):
                             msg=f"{proc} sent {cmd} for {name}: only the creating process "
                                 f"tracks a semaphore (an unpickled copy must not)"))
             break
-        if cmd == "REGISTER":
+        if cmd == "UNLINK":
+            unlinked.add(name)
+        elif cmd == "REGISTER":
             reg[name] = reg.get(name, 0) + 1
         elif cmd == "UNREGISTER":
+            if name not in unlinked and len(out) < 3:
+                out.append(dict(signature=f"C13:unregistered-before-unlinked|cause={c}",
+                                msg=f"{name} was unregistered from the tracker while still "
+                                    f"linked: a death of the process right there leaks it for "
+                                    f"good (nobody is left to unlink it)"))
             unreg[name] = unreg.get(name, 0) + 1
             if name not in reg:
                 out.append(dict(signature=f"C13:unregister-before-register|cause={c}", msg=name))
